@@ -292,7 +292,6 @@ def monitor_attempt_loop(chk, tier):
                 before_ = [x for x in evs[:i] if x.kind == 'env' and x.name.endswith('now_in_monotonic')]
                 after_ = [x for x in between if x.kind == 'env' and x.name.endswith('now_in_monotonic')]
                 if before_ and after_:
-                    from models import time_parts, dur_parts, NANOS
                     bs_, bn_ = time_parts(ex, st, Tree({}, before_[-1].out, 'std::time::Instant'))
                     as_, an_ = time_parts(ex, st, Tree({}, after_[0].out, 'std::time::Instant'))
                     rt = payload(ex, st, mv, 0, 0, 'std::time::Duration')
